@@ -4,7 +4,7 @@
 From Coq Require Import List Arith ZArith Lia Bool Ascii.
 Import ListNotations.
 From YG Require Import LRBase CompleteDriver LR0Build Productive Resolve TableCert LASuperset LASubset LAExec C03Assembly PackCore
-  Pipeline PipelineRun PipelineLA Front FrontUsable ViablePrefix WfGrammar YParser EndToEnd EndToEndProofs FrontWf ParsedNames.
+  Pipeline PipelineRun PipelineLA Front FrontUsable ViablePrefix WfGrammar YParser EndToEnd EndToEndProofs FrontWf ParsedNames LR0More.
 
 Theorem text_wf s b t : generate_text s = GOk b t -> wf_gi (b_gi b) = true.
 Proof.
@@ -36,3 +36,46 @@ Theorem text_complete s b t : generate_text s = GOk b t ->
   (forall a, In a (yield tr) -> a < gi_nsyms (b_gi b)) ->
   exists fuel, run fuel (dense_action (length (t_aut t)) (t_dense t)) (gi_rules (b_gi b)) [(0, eof)] (yield tr) [] = Acc (post tr).
 Proof. intros H. apply (checked_complete (b_gi b) (text_wf s b t H) t (text_tables s b t H)). Qed.
+
+(* C06 from the text: the table the generator computes never lets the LR machine shift a token that cannot continue a sentence -
+   whatever was read so far, followed by the shifted token, is the beginning of a sentence of the grammar *)
+Lemma text_all_productive s b t : generate_text s = GOk b t ->
+  forall X, exists z, terminal_string (gi_rules (b_gi b)) z /\ derives (gi_rules (b_gi b)) [X] z.
+Proof.
+  intros H X. set (gi := b_gi b). set (g := gi_rules gi).
+  pose proof (text_wf s b t H) as Hwf. pose proof (tables_productive gi t (text_tables s b t H)) as Hu.
+  destruct (is_nt_b g X) eqn:Ent.
+  - apply (productive_derives g (is_term_of g)).
+    + intros a Ha Hn. apply is_nt_b_spec in Hn. unfold is_term_of in Ha. fold g in Hn. rewrite Hn in Ha. discriminate.
+    + destruct (classic_productive gi X) as [Hp|Hnp]; [exact Hp|]. exfalso.
+      assert (Hin : In X (unproductive gi)).
+      { apply unproductive_in. split; [|split; [exact Ent|exact Hnp]].
+        apply is_nt_b_spec in Ent. destruct Ent as (r & R & HR & <-). apply (wf_lhs_ok gi Hwf r R HR). }
+      rewrite Hu in Hin. destruct Hin.
+  - exists [X]. split; [|constructor]. intros x [<-|[]] Hn. apply is_nt_b_spec in Hn. fold g in Hn. congruence.
+Qed.
+
+Theorem text_never_shifts_a_bad_token s b t : generate_text s = GOk b t ->
+  let g := gi_rules (b_gi b) in
+  let T := action_fun (b_gi b) (t_aut t) (t_la t) in
+  forall n w stk a inp' reds q',
+  nsteps n T g ([(0, eof)], w, []) = Some (stk, a :: inp', reds) -> T (top_state stk) a = Shift q' ->
+  exists pre z, w = pre ++ a :: inp' /\ terminal_string g z /\ derives g [0] (pre ++ a :: z).
+Proof.
+  intros H g T. set (gi := b_gi b) in *.
+  pose proof (text_wf s b t H) as Hwf. pose proof (text_tables s b t H) as Ht.
+  pose proof (text_all_productive s b t H) as Hprod. fold gi g in Hprod.
+  pose proof (wf_no_start_in_rhs gi Hwf) as H1. pose proof (wf_rule0_lhs gi Hwf) as H2. pose proof (wf_no_eof_in_rhs gi Hwf) as H3.
+  pose proof (wf_rule0_rhs gi Hwf) as H4. pose proof (wf_eof_terminal gi Hwf) as H5.
+  pose proof (wf_productive_all gi Hwf (tables_productive gi t Ht)) as H6. fold g in H1, H2, H3, H4, H5, H6.
+  fold gi in Ht. revert T. revert Ht. unfold generate_tables. fold g. destruct (unproductive gi); [|discriminate].
+  destruct (build g) as [aut|] eqn:Eb; [|discriminate]. intros Ht. inversion Ht; subst t. clear Ht. cbn [t_aut t_la]. set (T := action_fun gi aut (la_table g aut)).
+  pose proof (build_structural g H1 H2 H3 aut Eb) as Hstruct.
+  assert (Hglen : 0 < length g).
+  { unfold rhs_of in H4. destruct (nth_error g 0) eqn:E; [|discriminate]. apply nth_error_Some. congruence. }
+  destruct (build_more g Hglen (or_intror I) aut Eb) as (Hvalid & _).
+  assert (Hitems : forall q r d, In (r, d) (items (LRBase.st aut q)) -> r < length g) by (intros q r d Hin; apply (Hvalid q (r, d) Hin)).
+  pose proof (gen_table_cert g aut (la_lookup (la_table g aut)) (sprec_of gi) (rprec_of gi) Hitems (ex_intro _ _ H4) Hstruct) as Hcert.
+  intros n w stk a inp' reds q'.
+  apply (run_never_shifts_a_bad_token g aut (start_user g) T H1 H2 H3 H4 H5 H6 Eb Hcert Hprod).
+Qed.
